@@ -286,6 +286,54 @@ func (w *world) doCancel(c *call) string {
 	}
 }
 
+// relRace: caller u's context ends while the release by c is inside its critical section. The map mutex is held
+// through the hook while first the releaser and then u's cancellation arm queue up on it, so the release runs
+// first (sync.Mutex wakes blocked lockers in arrival order) and u finds its grant — or not — when it gets the lock.
+func (w *world) relRace(c, u *call) string {
+	sec := w.section(c.tok)
+	sw, _ := c.w.Load().(*semap.Weighted)
+	wasParked := u.status == stParked
+	semap.VerifLock(w.m, c.key)
+	t := w.s.Go("rel"+strconv.Itoa(c.tid), func() string {
+		if c.write {
+			atomic.AddInt32(&sec.w, -1)
+			w.m.ReleaseWrite(c.key, sw)
+		} else {
+			atomic.AddInt32(&sec.r, -1)
+			w.m.ReleaseRead(c.key, sw)
+		}
+		return "ok"
+	})
+	c.status = stReleased
+	w.settle()
+	u.cancel()
+	w.settle()
+	semap.VerifUnlock(w.m, c.key)
+	w.settle()
+	woke := w.refresh()
+	res := "ok"
+	if done, r := t.Done(); !done {
+		w.hit("release-blocked", fmt.Sprintf("Release of caller %d did not return", c.tid))
+		res = "blocked"
+	} else if r != "ok" {
+		w.hit("panic", fmt.Sprintf("Release of caller %d ended with %s", c.tid, r))
+		res = r
+	}
+	then := "noop"
+	if wasParked {
+		switch u.status {
+		case stInside:
+			then = "nil"
+		case stFailed:
+			then = "ctx"
+		default:
+			then = "still-parked"
+			w.hit("cancel-not-returned", fmt.Sprintf("caller %d: context cancelled, Acquire did not return", u.tid))
+		}
+	}
+	return res + " woke=" + showIDs(woke) + " then=" + then
+}
+
 func (w *world) weight(c *call) int {
 	if c.write {
 		return w.rw
@@ -429,6 +477,15 @@ func runCase(c corr.Case) (res corr.Result) {
 					return "bad-op"
 				}
 				o := w.release(w.calls[tid])
+				w.monitors(line)
+				return o
+			case len(f) == 3 && f[0] == "relx":
+				tid, ok := natCanon(f[1], 9)
+				uid, ok2 := natCanon(f[2], 9)
+				if !ok || !ok2 || w.calls[tid] == nil || w.calls[uid] == nil || w.calls[tid].status != stInside {
+					return "bad-op"
+				}
+				o := w.relRace(w.calls[tid], w.calls[uid])
 				w.monitors(line)
 				return o
 			case len(f) == 2 && f[0] == "cancel":
